@@ -45,7 +45,7 @@ func c11Point(r *vlib.R, types []string) data.Point {
 
 func runC11(tier string, _ []string) int {
 	c := vlib.NewCtx("C11", tier, "exploration")
-	c.SetRule("types and prior values as in C10 (reflect.StructOf + static type); point lists of 0..12 points over declared and undeclared types with keys from a hostile pool ('', 0, -1, +3, 007, 1000, 1001, 1e3, abc, huge, unicode digits…), values (NaN, ±Inf, ±MaxFloat64, 2^63, 2^64, type-range edges), tombstones (0,1,2,3,-1,Max,Min) fed to data.Decode (points, edge points and children), data.MergePoints and data.MergeEdgePoints under a panic monitor; lists made only of undeclared types must leave the target unchanged and return no error. distinct = (entry point, outcome, shapes of the fields hit, key class)")
+	c.SetRule("types and prior values as in C10 (reflect.StructOf + static type); point lists of 0..12 points over declared and undeclared types with keys from a hostile pool ('', 0, -1, +3, 007, 1000, 1001, 1e3, abc, huge, unicode digits…), values (NaN, ±Inf, ±MaxFloat64, 2^63, 2^64, type-range edges), tombstones (0,1,2,3,-1,Max,Min) fed to data.Decode (points, edge points and children), data.MergePoints and data.MergeEdgePoints under a panic monitor, followed in a third of the cases by up to three more merges into the same target (keys around 500 and 1000 included) and, in 4% of the cases, starting from slices of 400-1000 elements; lists made only of undeclared types must leave the target unchanged and return no error. distinct = (entry point, outcome, shapes of the fields hit, key class)")
 	c.Assume("only supported (exported, tagged) field kinds are generated; a Go panic is the crash signal")
 	n := c.N(50000, 3000000)
 	static := c10StaticGen()
@@ -64,6 +64,20 @@ func runC11(tier string, _ []string) int {
 			prior.Field(0).SetString(id)
 		} else {
 			prior = genConfigValue(r, g, 6, id)
+		}
+		if r.Chance(0.04) {
+			// a target that has grown large through earlier merges: slices near the documented limit,
+			// with and without spare capacity
+			for j, f := range g.Fields {
+				if f.Shape == "slice" && f.Tag != "child" {
+					n := []int{400, 501, 600, 999, 1000}[r.Intn(5)]
+					capn := n + []int{0, 0, 1, 50, 1000 - n}[r.Intn(5)]
+					if capn < n {
+						capn = n
+					}
+					prior.Field(j).Set(reflect.MakeSlice(prior.Field(j).Type(), n, capn))
+				}
+			}
 		}
 		var declP, declE []string
 		shapeOf := map[string]string{}
@@ -155,6 +169,24 @@ func runC11(tier string, _ []string) int {
 				if d := eqVal(before, target, ""); d != "" {
 					c.Violate("decode:undeclared-type-changed-target", "points of undeclared types changed the target at "+d, wit)
 					return
+				}
+			}
+			// further merges into the same target: what an earlier call left behind (spare capacity,
+			// trimmed tails, re-created pointers, nil-ed structs) is the prior state of the next one
+			if !onlyUndecl {
+				for step := 0; step < 3 && r.Chance(0.35); step++ {
+					more := mkList(declP)
+					for j := range more {
+						if r.Chance(0.3) {
+							more[j].Key = fmt.Sprint([]int{0, 1, 2, 3, 499, 500, 501, 998, 999, 1000, 1001}[r.Intn(11)])
+						}
+						if r.Chance(0.3) {
+							more[j].Tombstone = []int{0, 1}[r.Intn(2)]
+						}
+					}
+					wit["later_merge_"+fmt.Sprint(step)] = witnessPoints(more)
+					_ = data.MergePoints(id, more, target)
+					c.Count("chained_merges", 1)
 				}
 			}
 			cls := fmt.Sprintf("%v err=%v undecl=%v", wit["entry"], err != nil, onlyUndecl)
